@@ -296,6 +296,7 @@ static auto other_state(C &c) -> decltype(c.insert(typename C::value_type(0)), v
 struct RunResult {
   unsigned ops;
   bool bytesChanged;
+  uint64_t schedHash;  // readers, writers, every script and the release order (what distinguishes one schedule from another)
 };
 
 template <class C, class ReaderFn, class WriterFn, class FootFn>
@@ -337,6 +338,9 @@ static RunResult run_threads(uint64_t seed, const C &shared, ReaderFn readerOp, 
   std::vector<size_t> pos(N, 0);
   unsigned ops = 0;
   std::string order;
+  uint64_t sh = mix64((uint64_t)R, (uint64_t)W);
+  for (int i = 0; i < N; ++i)
+    for (size_t k = 0; k < scripts[i].size(); ++k) sh = mix64(sh, ((uint64_t)scripts[i][k].first << 32) | scripts[i][k].second);
   while (true) {
     std::vector<int> live;
     for (int i = 0; i < N; ++i) if (pos[i] < scripts[i].size()) live.push_back(i);
@@ -344,6 +348,7 @@ static RunResult run_threads(uint64_t seed, const C &shared, ReaderFn readerOp, 
     int pick = live[r.below((unsigned)live.size())];
     ++pos[pick];
     ++ops;
+    sh = mix64(sh, (uint64_t)pick);
     if (verbose) { char b[16]; snprintf(b, sizeof b, "%s%c%d", order.empty() ? "" : " ", pick < R ? 'r' : 'w', pick); order += b; }
     sch.release(pick);
   }
@@ -353,6 +358,7 @@ static RunResult run_threads(uint64_t seed, const C &shared, ReaderFn readerOp, 
   RunResult res;
   res.ops = ops;
   res.bytesChanged = before != after;
+  res.schedHash = sh;
   return res;
 }
 
@@ -467,6 +473,7 @@ int main(int argc, char **argv) {
       RunResult rr = run_one(mix64(base, i), kind, false);
       fprintf(stderr, "ENDRUN %llu\n", (unsigned long long)i);
       ++runs; ops += rr.ops; ++perKind[kind];
+      printf("H %llu %d %016llx %u\n", (unsigned long long)i, kind, (unsigned long long)rr.schedHash, rr.ops);
       if (rr.bytesChanged) printf("B %llu kind=%s the bytes of the shared container changed during the reader phase\n", (unsigned long long)i, kKinds[kind]);
       double secs = std::chrono::duration<double>(std::chrono::steady_clock::now() - t0).count();
       if (secs > maxSecs) break;
